@@ -626,14 +626,109 @@ Section ScannerProofs.
     step fine_Eol. destruct a; [exact I|].
     destruct (has_more (pos s1)) eqn:Hm1.
     - apply inc_go; auto.
-    - (* SkipWS inside Eol() reached the end of the input *)
+    - (* SkipWS inside Eol() ran to the end of the input: ++ is a no-op there, but the iteration as a whole moved *)
       apply post_bind. eapply post_mono; [apply fine_inc; eapply ext_wf; eassumption|]. intros ? s2 [EE RR].
-      simpl. split; [eapply ext_trans; [|exact EE]; assumption|]. split.
-      + rewrite (ext_buf _ _ EE). apply ext_buf. assumption.
-      + intros _. exfalso. apply has_more_false in Hm1. apply has_more_lt in Hm.
-        match goal with H : ext s s1 |- _ => pose proof (ext_buf _ _ H) as HB; pose proof (ext_idx _ _ H) as HI; pose proof (ext_len _ _ H) as HL end.
-        rewrite HB in *.
-        (* the loop condition is re-tested: no further iteration can be demanded here *)
-        admit.
-  Admitted.
+      apply iter_go; [exact E0|eapply ext_trans; [|exact EE]; assumption|].
+      apply has_more_false in Hm1. apply has_more_lt in Hm.
+      match goal with H : ext s s1 |- _ => pose proof (ext_buf _ _ H) as HB end.
+      rewrite HB in Hm1. pose proof (ext_idx _ _ EE). lia.
+  Qed.
+
+  Lemma fine_Id_ :
+    fine (@Id_ U A) (fun b s s' => b = true -> in_alpha (a_id A) (deref (pos s)) = false -> (idx (pos s) < idx (pos s'))%nat).
+  Proof.
+    intros s W. pose proof (ext_refl s W) as E. unfold Id_.
+    step_at (fine_at_alpha (a_id A)).
+    destruct (has_more (pos s)) eqn:Hm; cbn [andb].
+    2:{ step_at (fine_at_char (fun c => (c =? 96)%N)). rewrite Hm. cbn [andb]. done_ret. discriminate. }
+    destruct (in_alpha (a_id A) (deref (pos s))) eqn:Ia.
+    { step (fine_skip_while (a_keyword A)). done_ret. discriminate. }
+    step_at (fine_at_char (fun c => (c =? 96)%N)). rewrite Hm. cbn [andb].
+    destruct (deref (pos s) =? 96)%N; [|done_ret; discriminate].
+    step (fine_inc (U:=U)). step_pos.
+    apply post_bind. eapply post_mono.
+    { apply (loop_ok (backtick_body A) (fun _ s' => ext s0 s')); [|apply ext_refl; eapply ext_wf; eassumption].
+      intros [] sx Ex. apply backtick_iter, Ex. }
+    intros ? s1 E1'. cbv beta in E1' |- *. assert (Es : ext s s1) by (eapply ext_trans; [|exact E1']; assumption).
+    step_pos.
+    destruct (pos_eqb (pos s0) (pos s1)); [exact I|].
+    destruct (negb (has_more (pos s1))); [exact I|].
+    step (fine_inc (U:=U)). done_ret. intros _ _.
+    match goal with H : ext s1 s2 |- _ => pose proof (ext_idx _ _ H) as H12 end.
+    pose proof (ext_idx _ _ E1') as H01. rewrite R, pos_inc_idx, Hm in H01. lia.
+  Qed.
+
+  Hypothesis backtick_not_id : in_alpha (a_id A) 96%N = false.
+
+  Lemma fine_Id validate : fine (@Id U A K validate) (fun _ _ _ => True).
+  Proof.
+    intros s W. pose proof (ext_refl s W) as E. unfold Id.
+    step (fine_SkipWS false). step_pos. step fine_Id_. destruct a0; [|done_ret; exact I].
+    step_pos. apply post_bind.
+    match goal with |- context [if ?c then throw_at _ else ret tt] => destruct c end; [exact I|].
+    apply post_ret.
+    destruct (classify K _); [done_ret; exact I|].
+    destruct (deref (pos s0) =? 96)%N eqn:Eq; [|done_ret; exact I].
+    apply N.eqb_eq in Eq. rewrite Eq in R0. specialize (R0 eq_refl backtick_not_id).
+    cbn [pos_sub]. destruct (pos_dec (pos s1)) eqn:Ed.
+    - done_ret. exact I.
+    - apply pos_dec_none in Ed. lia.
+  Qed.
+
+  Lemma qs_iter (s0 s : ST) v : ext s0 s -> @iter_ok (N * Z * bool) s0 s (qs_body v s).
+  Proof.
+    intros E0. pose proof (ext_wf _ _ E0) as W. pose proof (ext_refl s W) as E. unfold iter_ok, qs_body.
+    destruct v as [[prev_char in_interp] in_quote]. step_pos.
+    destruct (has_more (pos s)) eqn:Hm; cbn [andb]; [|apply iter_stop; auto].
+    match goal with |- context [if ?c then _ else _] => destruct c end; [|apply iter_stop; auto].
+    step (fine_Eol_ false). destruct a.
+    - apply iter_go; auto.
+    - subst s1. step_pos.
+      match goal with |- context [let '(ii, iq) := ?c in _] => destruct c as [ii iq] end.
+      apply inc_go; auto.
+  Qed.
+  Lemma sqs_iter (s0 s : ST) v : ext s0 s -> @iter_ok N s0 s (sqs_body v s).
+  Proof.
+    intros E0. pose proof (ext_wf _ _ E0) as W. pose proof (ext_refl s W) as E. unfold iter_ok, sqs_body. step_pos.
+    destruct (has_more (pos s)) eqn:Hm; cbn [andb]; [|apply iter_stop; auto].
+    match goal with |- context [if ?c then _ else _] => destruct c end; [|apply iter_stop; auto].
+    step (fine_Eol_ false). destruct a.
+    - apply iter_go; auto.
+    - subst s1. step_pos. apply inc_go; auto.
+  Qed.
+
+  (* a quoted scanner that succeeds has consumed at least the two quote characters *)
+  Lemma fine_quoted {X} (q : N) (body : X -> M U (X * bool)) (x0 : X) msg :
+    (forall s0 s v, ext s0 s -> @iter_ok X s0 s (body v s)) ->
+    fine (q' <- at_char (fun c => (c =? q)%N) ;;
+          if q' then inc ;;; loop body x0 ;;; p <- get_pos ;; (if has_more p then inc ;;; ret true else throw_at msg) else ret false)
+         (fun b s s' => b = true -> (idx (pos s) + 2 <= idx (pos s'))%nat).
+  Proof.
+    intros Hb s W. pose proof (ext_refl s W) as E.
+    step_at (fine_at_char (fun c => (c =? q)%N)).
+    destruct (has_more (pos s)) eqn:Hm; cbn [andb]; [|done_ret; discriminate].
+    destruct (deref (pos s) =? q)%N; [|done_ret; discriminate].
+    step (fine_inc (U:=U)).
+    apply post_bind. eapply post_mono.
+    { apply (loop_ok body (fun _ s' => ext s0 s')); [|apply ext_refl; eapply ext_wf; eassumption].
+      intros v sx Ex. apply Hb, Ex. }
+    intros ? s1 E1'. cbv beta in E1' |- *. assert (Es : ext s s1) by (eapply ext_trans; [|exact E1']; assumption).
+    step_pos. destruct (has_more (pos s1)) eqn:Hm1; [|exact I].
+    step (fine_inc (U:=U)). done_ret. intros _.
+    pose proof (ext_idx _ _ E1') as H01. rewrite R, pos_inc_idx, Hm in H01.
+    match goal with H : pos s2 = pos_inc (pos s1) |- _ => rewrite H, pos_inc_idx, Hm1 end. lia.
+  Qed.
+  Lemma fine_Quoted_String_ : fine (@Quoted_String_ U) (fun b s s' => b = true -> (idx (pos s) + 2 <= idx (pos s'))%nat).
+  Proof. apply (fine_quoted 34%N qs_body). intros; apply qs_iter; assumption. Qed.
+  Lemma fine_Single_Quoted_String_ : fine (@Single_Quoted_String_ U) (fun b s s' => b = true -> (idx (pos s) + 2 <= idx (pos s'))%nat).
+  Proof. apply (fine_quoted 39%N sqs_body). intros; apply sqs_iter; assumption. Qed.
+
+  (* `m_position - 1` in the string scanners: the precondition of operator-- holds *)
+  Lemma between_ok (start : Position) (s : ST) :
+    (1 <= idx (pos s))%nat -> exists content, @between U start s = Ok (content, s).
+  Proof.
+    intros H. unfold between, bind, get_pos. cbn [pos_sub]. destruct (pos_dec (pos s)) eqn:Ed.
+    - eexists; reflexivity.
+    - apply pos_dec_none in Ed. lia.
+  Qed.
 End ScannerProofs.
